@@ -35,8 +35,12 @@ def gen_dgram(rng, community):
     r = rng.random()
     n = rng.randint(0, 5)
     vbs = [[UPTIME, ["ticks", rng.choice([0, 4242, 2**32 - 1])]], [TRAPOID, ["oid", [1, 3, 6, 1, 4, 1, 8072, rng.randint(1, 9)]]]]
+    if rng.random() < 0.12:
+        n = rng.choice([25, 60, 140])  # a big notification: datagrams of 0.5 .. 8 kB
     for i in range(n):
         vbs.append([[1, 3, 6, 1, 4, 1, 99, i + 1, rng.choice([0, 1, 300])], rng.choice(O.ALL_VALUES)])
+    # any definite length form is legal (RFC 3417 8(1): "more length octets than the minimum")
+    form = rng.choice(["min", "min", "min", "long1", "long2", "long3", "long4"])
     comm, version, tag = community, 1, 0xA7
     kind = "valid"
     if r < 0.5:
@@ -51,8 +55,8 @@ def gen_dgram(rng, community):
     elif r < 0.74:
         tag = rng.choice([0xA2, 0xA6])
         kind = "other-pdu"
-    pdu = B.enc_pdu(tag, rng.randrange(1, 2**31), 0, 0, [(o, v) for o, v in vbs])
-    data = B.enc_community_msg(version, comm, pdu)
+    pdu = B.enc_pdu(tag, rng.randrange(1, 2**31), 0, 0, [(o, v) for o, v in vbs], form)
+    data = B.enc_community_msg(version, comm, pdu, form)
     if 0.74 <= r < 0.87:
         data = data[: rng.randint(0, len(data) - 1)]
         kind = "truncated"
@@ -152,12 +156,31 @@ def one_sequence(ctx, res, community, n):
         kinds.append(kind)
         res.count("dgram:" + kind)
     lst = Listener(community)
+    # what is delivered must not depend on the log level of the application: every other sequence
+    # runs with the library's loggers at DEBUG (records go to a null handler)
+    debug = ctx.rng.random() < 0.5
+    res.count("logging:" + ("debug" if debug else "off"))
+    import logging
+
+    if debug:
+        logging.disable(logging.NOTSET)
+        lg = logging.getLogger("puresnmp")
+        old_level, old_prop = lg.level, lg.propagate
+        handler = logging.NullHandler()
+        lg.addHandler(handler)
+        lg.setLevel(logging.DEBUG)
+        lg.propagate = False
     try:
         raised = lst.inject(seq)
         got = lst.got
     finally:
+        if debug:
+            lg.removeHandler(handler)
+            lg.setLevel(old_level)
+            lg.propagate = old_prop
+            logging.disable(logging.CRITICAL)
         lst.close()
-    case = {"community": community.hex(), "dgrams": [[a, p, d.hex()] for a, p, d in seq], "kinds": kinds}
+    case = {"community": community.hex(), "dgrams": [[a, p, d.hex()] for a, p, d in seq], "kinds": kinds, "debug_logging": debug}
     bad = oracle(community, seq, descs, got)
     if bad:
         res.violate("trap-seq", case, "matching notifications delivered once each", {"deliveries": got[:3], "raised": raised[:3]}, bad, {"kind": "trap", "what": "not-delivered" if "not delivered" in bad else "wrong-delivery"})
@@ -239,6 +262,14 @@ def replay(ctx, payload):
     community = bytes.fromhex(c["community"])
     lst = Listener(community)
     seq = [(a, p, bytes.fromhex(d)) for a, p, d in c["dgrams"]]
+    import logging
+
+    if c.get("debug_logging"):
+        logging.disable(logging.NOTSET)
+        lg = logging.getLogger("puresnmp")
+        lg.addHandler(logging.NullHandler())
+        lg.setLevel(logging.DEBUG)
+        lg.propagate = False
     raised = lst.inject(seq)
     print("deliveries", lst.got, "raised", raised)
     descs = []
